@@ -3,12 +3,47 @@ T = "RsslVerif.Thm.C06."
 
 
 def nontrivial(req, obs):
+    if req.startswith("C06.compile"):
+        # at least one returned pipeline in which two declarations are bound
+        return any(p.count(",i") + p.count(",n") >= 2 for p in obs.split(" ## "))
     # at least two bound declarations
     return obs.count(",i") + obs.count(",n") >= 2
 
 
+def shrink_compile(f):
+    """C06.compile: drop one declaration (renumbering the uses), one pipeline, or the spelling flags of one declaration"""
+    pipes = [] if f[3] == "-" else [p.split(":") for p in f[3].split(";")]
+    decls = f[4].split(";") if f[4] else []
+
+    def emit(pipes, decls):
+        return "\t".join(f[:3] + [";".join(":".join(p) for p in pipes) or "-", ";".join(decls)])
+    for i in range(len(decls)):
+        if i + 1 < len(decls) and ".j" in "." + decls[i + 1].split("~")[1]:
+            continue  # the next one is written as a further declarator of this one
+        np = []
+        for p in pipes:
+            uses = [int(u) for u in p[3].split(".") if u]
+            np.append(p[:3] + [".".join(str(u - (1 if u > i else 0)) for u in uses if u != i)])
+        yield emit(np, decls[:i] + decls[i + 1:])
+    named = f[2][5:] if f[2].startswith("name=") else None
+    for i in range(len(pipes)):
+        if pipes[i][0] != named and len(pipes) > 1:
+            yield emit(pipes[:i] + pipes[i + 1:], decls)
+    for i in range(len(pipes)):
+        if pipes[i][3]:
+            yield emit(pipes[:i] + [pipes[i][:3] + [""]] + pipes[i + 1:], decls)
+    for i, d in enumerate(decls):
+        head, flags = d.split("~")
+        keep = ".".join(x for x in flags.split(".") if x in ("s", "z", "j"))
+        if keep != flags:
+            yield emit(pipes, decls[:i] + [head + "~" + keep] + decls[i + 1:])
+
+
 def shrink(req):
     f = req.split("\t")
+    if f[0] == "C06.compile":
+        yield from shrink_compile(f)
+        return
     decls = f[3].split(";")
     # drop one user declaration at a time (keep the fixed first/last root definitions)
     for i in range(1, len(decls) - 1):
@@ -17,7 +52,7 @@ def shrink(req):
 
 SPEC = {
     "id": "C06",
-    "gens": ["SlotTables"],
+    "gens": ["SlotTables", "SlotCompile"],
     "lean_modules": ["RsslVerif.Thm.C06"],
     "theorems": [T + n for n in [
         "slice_cost_table", "alloc_shape_as_modelled", "params_of_targets_ok", "params_of_targets", "index_ranges_tile",
